@@ -138,7 +138,7 @@ def g1_apportionment(ctx):
 
 RANKING_DRAWS = {
     # function -> list of (population text pattern, replace, size text)
-    "short_name_PlackettLuce.generate_profile": [("non_zero_cands", False, "number_to_sample"), ("zero_cands", False, "number_tied")],
+    "short_name_PlackettLuce.generate_profile": [("non_zero_cands", False, None), ("zero_cands", False, None)],
     "AlternatingCrossover.generate_profile": [("bloc_cands", False, "len(bloc_cands)"), ("opposing_cands", False, "len(opposing_cands)")],
     "CambridgeSampler.generate_profile": [("list(pref_interval_dict.interval.keys())", False, "len(pref_interval_dict.interval)")],
     "slate_PlackettLuce.generate_profile": [("list(cands)", False, "len(cands)")],
@@ -173,8 +173,13 @@ def g2_draw_table(ctx):
                 continue
             g = hit[0]
             kind = "with" if rep else "without"
-            ctx.check(g[1] is rep and g[2] == size, f, g[3], f"{f.short}: `{pop}` drawn {kind} replacement, size {size}", f"replace={g[1]}, size={g[2]}",
+            ctx.check(g[1] is rep and (size is None or g[2] == size), f, g[3], f"{f.short}: `{pop}` drawn {kind} replacement, size {size}", f"replace={g[1]}, size={g[2]}",
                       f"draw over `{pop}` has replace={g[1]}, size={g[2]}; documented replace={rep}, size={size}")
+
+
+def g6_short_pl_lengths(ctx):
+    """short Plackett-Luce: the sampled prefix and the zero-support tie together have exactly ballot_length candidates."""
+    prog = ctx.prog
     # short PL: the sample length is min(ballot_length, #supported), the tie takes the rest
     f = prog.find_func("short_name_PlackettLuce.generate_profile")
     pm = astx.parents(f.node)
@@ -414,7 +419,8 @@ def g5_no_cross_bloc_state(ctx):
 
 RULES = [
     ("C14.G1", g1_apportionment, 11, "8 apportionment calls agree: Huntington-Hill of number_of_ballots, keys aligned with proportions; crossover shares"),
-    ("C14.G2", g2_draw_table, 9, "draw table: rankings without replacement / full size, cumulative with replacement / num_votes; short-PL lengths"),
+    ("C14.G2", g2_draw_table, 8, "draw table: rankings without replacement / full size, cumulative with replacement / num_votes; short-PL lengths"),
+    ("C14.G6", g6_short_pl_lengths, 1, "short PL: sample min(ballot_length, #supported) candidates, the rest of the length is one zero-support tie"),
     ("C14.G3", g3_shape, 20, "ballot shape: singleton positions, zero-support tail, unit weights / counts, pool size = apportioned count"),
     ("C14.G5", g5_no_cross_bloc_state, 10, "no mutable state is carried across blocs; zero-support candidates survive interval combination"),
     ("C14.G4", g4_aggregation, 7, "aggregate = fold of + over per-bloc profiles; by_bloc returns (dict, aggregate)"),
